@@ -71,6 +71,7 @@ package core
 //@   ensures[C08] emits1: a != nil && lastret(core.ActionFunc, exe) != nil ==> exe == lastret(core.ActionFunc, exe)
 //@   ensures[C08] noemit: a == nil ==> len(exe.Emitted) == 0
 //@   ensures sameerr: a != nil ==> err == lastret(core.ActionFunc, err)
+//@   ensures[C04] rejectkept: a != nil && lastret(core.ActionFunc, exe) != nil && atcall(core.ActionFunc, lastret(core.ActionFunc, exe).Bs) == nil ==> exe.Bs == nil
 //@   loop 0 modifies permanent
 //@   loop 0 invariant onlybs: forall k string :: (k in permanent) ==> (k in bs) && permanent[k] == bs[k]
 //@   loop 0 invariant[C18] collected: forall k string :: seen(0)[k] && hasSuffix(k, "!") ==> (k in permanent) && permanent[k] == bs[k]
